@@ -71,7 +71,7 @@ type Exec struct {
 	// thread costs 1, switching at a blocking point is free) to delay bounding (Emmi, Qadeer, Rakamaric,
 	// POPL 2011): every departure from the deterministic default order costs 1, also at blocking points.
 	DelayBounded bool
-	idleTicks int
+	idleTicks    int
 }
 
 // NewExec installs a fresh execution state. Call inside the bubble, before Enable.
